@@ -108,12 +108,55 @@ def chunksAux {β : Type} (n : Nat) : Nat → List β → List (List β)
 
 def chunks {β : Type} (n : Nat) (xs : List β) : List (List β) := chunksAux n xs.length xs
 
-/-- `from_dataframe`: profile every batch, add the profiles left to right (`profiler.py:289-306`).
-An empty frame has no batches and the column gets no profile (`none`). -/
+/-- `range(start, stop, step)` for a positive step (fuel: `stop - start` iterations suffice). -/
+def pyRangeAux (stop step : Nat) : Nat → Nat → List Nat
+  | 0, _ => []
+  | fuel + 1, i => if i < stop ∧ step ≠ 0 then i :: pyRangeAux stop step fuel (i + step) else []
+
+def pyRange (start stop step : Nat) : List Nat := pyRangeAux stop step (stop - start) start
+
+/-- `rows[lo:hi]` for `0 ≤ lo`, `0 ≤ hi`. -/
+def pySlice {β : Type} (lo hi : Nat) (xs : List β) : List β := (xs.drop lo).take (hi - lo)
+
+/-- `DataFrame.to_batches(batch_size)` (`dataframe.py:323-335`) from the generated range and slice
+arithmetic: `for i in range(0, self.rowcount, batch_size): yield rows[i : i + batch_size]`. -/
+def toBatches {β : Type} (b : Nat) (xs : List β) : List (List β) :=
+  (pyRange Gen.ProfileExpr.batchRangeStart (Gen.ProfileExpr.batchRangeStop xs.length) (Gen.ProfileExpr.batchRangeStep b)).map
+    (fun i => pySlice (Gen.ProfileExpr.batchSliceLo i b) (Gen.ProfileExpr.batchSliceHi i b) xs)
+
+/-- `from_dataframe`: profile every batch of `to_batches`, add the profiles left to right
+(`profiler.py:300-317`).  An empty frame has no batches and the column gets no profile (`none`). -/
 def batched (prof : List (Option α) → Core) (n : Nat) (xs : List (Option α)) : Option Core :=
-  match chunks n xs with
+  match toBatches n xs with
   | [] => none
   | b :: bs => some (bs.foldl (fun acc c => addCore acc (prof c)) (prof b))
+
+/-! ## the histogram comprehension and the entry point -/
+
+/-- `[(left_edge, count) for count, left_edge in zip(hist_counts, bin_edges[:-1]) if count > 0]`
+(`profiler.py`, `NumericProfiler`): `numpy.histogram` itself is a parameter (its counts and edges are the
+arguments), the slice of the edges, the filter and the kept component are generated.  When the kept pair does
+not carry the count (`histKeepsCount = false`) the model claims no mass (0). -/
+def histogramOf {β : Type} (counts : List Nat) (edges : List β) : List (β × Nat) :=
+  let es := (edges.drop Gen.ProfileExpr.histEdgesFrom).take
+    (edges.length - Gen.ProfileExpr.histEdgesFrom - Gen.ProfileExpr.histEdgesDropRight)
+  ((counts.zip es).filter (fun p => decide (Gen.ProfileExpr.histKeep p.1))).map
+    (fun p => (p.2, if Gen.ProfileExpr.histKeepsCount then p.1 else 0))
+
+/-- The sum of the listed counts (what the property's histogram clause talks about). -/
+def histMass {β : Type} (h : List (β × Nat)) : Nat := (h.map Prod.snd).sum
+
+/-- The states one frame object goes through: its rows, then its rows after each `append` chunk. -/
+def frameStates {β : Type} (rows : List β) : List (List β) → List (List β)
+  | [] => [rows]
+  | chunk :: more => rows :: frameStates (rows ++ chunk) more
+
+/-- What successive reads of `DataFrame.profile` on ONE frame object return, a read after every chunk of
+appended rows: the profile of the rows held at that moment when the property recomputes
+(`profileEntryRecomputes`); otherwise a remembered first result. -/
+def profileReads {β γ : Type} (prof : List β → γ) (rows : List β) (appends : List (List β)) : List γ :=
+  if Gen.ProfileExpr.profileEntryRecomputes then (frameStates rows appends).map prof
+  else (frameStates rows appends).map (fun _ => prof rows)
 
 /-! ## most frequent values (`find_mfvs` = `Counter(data).most_common(top_n)`) -/
 
@@ -140,7 +183,7 @@ def sortDesc : List (α × Nat) → List (α × Nat)
   | p :: ps => insDesc p (sortDesc ps)
 
 /-- `Counter(data).most_common(n)`. -/
-def mfv (n : Nat) (vs : List α) : List (α × Nat) := (sortDesc (tally vs)).take n
+def mfv (n : Nat) (vs : List α) : List (α × Nat) := (sortDesc (tally vs)).take (Gen.ProfileExpr.mfvTakeCount n)
 
 /-! ## k-minimum-values sketch (`get_kvm_hashes`) -/
 
@@ -159,10 +202,39 @@ def kmvLoop : List Nat → List Nat → List Nat
     | some m => if hv < m then kmvLoop (insAsc hv heap.dropLast) rest else kmvLoop heap rest
     | none => kmvLoop heap rest
 
-/-- `get_kvm_hashes(data, size)`: `data = list(set(data))`, heap of the first `size` hashes, loop over
-the rest, `sorted`.  Two distinct values with the same hash both stay in the heap. -/
-def kmv (h : α → Nat) (size : Nat) (vs : List α) : List Nat :=
+/-- The same loop over an arbitrary replacement test (`if hash_value < -min_hashes[0]` in the source). -/
+def kmvLoopG (replace : Nat → Nat → Bool) : List Nat → List Nat → List Nat
+  | heap, [] => heap
+  | heap, hv :: rest =>
+    match heap.getLast? with
+    | some m => if replace hv m then kmvLoopG replace (insAsc hv heap.dropLast) rest else kmvLoopG replace heap rest
+    | none => kmvLoopG replace heap rest
+
+/-- The specification shape of `get_kvm_hashes(data, size)`: `data = list(set(data))`, heap of the first
+`size` hashes, loop over the rest with `<`, `sorted`.  Two distinct values with the same hash both stay in
+the heap. -/
+def kmvSpec (h : α → Nat) (size : Nat) (vs : List α) : List Nat :=
   kmvLoop (sortAsc (((distinct vs).take size).map h)) (((distinct vs).drop size).map h)
+
+/-- A sketch that removes duplicate *hashes* (`heapq.nsmallest(size, {hash(v) for v in set(data)})`): NOT what
+the source does; the model follows the source into this shape when the extractor finds it, and
+`C15.hash_set_sketch_undercounts` shows it breaks exactness for colliding values. -/
+def kmvByHashes (h : α → Nat) (size : Nat) (vs : List α) : List Nat :=
+  (sortAsc (distinct ((distinct vs).map h))).take size
+
+/-- The heap shape of `get_kvm_hashes` over its parts: the replacement test, how many de-duplicated values
+seed the heap (`data[:init]`), where the loop starts (`data[start:]`). -/
+def kmvG (replace : Nat → Nat → Bool) (init start : Nat) (h : α → Nat) (vs : List α) : List Nat :=
+  kmvLoopG replace (sortAsc (((distinct vs).take init).map h)) (((distinct vs).drop start).map h)
+
+/-- `get_kvm_hashes(data, size)` assembled from the generated parts: what is de-duplicated, how many values
+seed the heap (`data[:size]`), where the loop starts (`data[size:]`), the replacement test. -/
+def kmv (h : α → Nat) (size : Nat) (vs : List α) : List Nat :=
+  match Gen.ProfileExpr.sketchDedup with
+  | .values =>
+    kmvG (fun hv top => decide (Gen.ProfileExpr.sketchReplaceTest hv top))
+      (Gen.ProfileExpr.sketchInitCount size) (Gen.ProfileExpr.sketchLoopFrom size) h vs
+  | .hashes => kmvByHashes h size vs
 
 end mfv
 
@@ -271,6 +343,38 @@ def profileBoolean (xs : List (Option Bool)) : Prof Bool :=
 /-- `ListStructProfiler`, `DefaultProfiler` (`profiler.py:323-332`): count and missing only. -/
 def profileCounts (xs : List (Option α)) : Prof α :=
   { core := coreCounts xs, mfv := [], kmv := [], order := none, transitions := 0 }
+
+/-! ## the whole of `ColumnProfile.__add__` (histogram merge aside) -/
+
+/-- The most-frequent lists of a sum (`profiler.py`, `__add__`): when both sides list something, the values
+listed on BOTH sides, in the left side's order, with the two counts added; when one side holds no values at all
+(an all-null batch) the other side's list; otherwise nothing. -/
+def addMfv [DecidableEq α] (a b : Prof α) : List (α × Nat) :=
+  if !a.mfv.isEmpty && !b.mfv.isEmpty then
+    a.mfv.filterMap (fun vc => (b.mfv.find? (fun q => q.1 = vc.1)).map (fun q => (vc.1, vc.2 + q.2)))
+  else if b.core.count = b.core.missing then a.mfv
+  else if a.core.count = a.core.missing then b.mfv
+  else []
+
+/-- The sketch of a sum: `sorted(set(self.kmv_hashes + profile.kmv_hashes))[:KVM_SIZE]` when both sides have
+one — a *set* of hashes: equal hashes of different values count once; otherwise the only sketch there is. -/
+def addKmv (size : Nat) (a b : List Nat) : List Nat :=
+  if !a.isEmpty && !b.isEmpty then (sortAsc (distinct (a ++ b))).take size
+  else if !b.isEmpty then b else a
+
+/-- `ColumnProfile.__add__` on everything but the histogram; transitions and order by the generated updates. -/
+def addProf [DecidableEq α] (a b : Prof α) : Prof α :=
+  { core := addCore a.core b.core
+    mfv := addMfv a b
+    kmv := addKmv Gen.Profile.kvmSize a.kmv b.kmv
+    order := Gen.ProfileExpr.addOrder a.order b.order
+    transitions := Gen.ProfileExpr.addTransitions a.transitions b.transitions }
+
+/-- `from_dataframe` on whole profiles: the profiles of the batches of `to_batches`, added left to right. -/
+def batchedProf [DecidableEq α] (prof : List (Option α) → Prof α) (n : Nat) (xs : List (Option α)) : Option (Prof α) :=
+  match toBatches n xs with
+  | [] => none
+  | b :: bs => some (bs.foldl (fun acc c => addProf acc (prof c)) (prof b))
 
 /-! ## concrete parameters used by the driver -/
 
